@@ -26,7 +26,7 @@ from .. import core, encode, pool, rng as rngmod
 
 FN = "nbs_bct"
 GENS = ["u22n4", "u23n4", "u33n3", "p33n4", "p22n4"]
-MC_QUICK = ["q_u22n3", "q_u22n4k2", "q_u23n3", "q_p22n4", "q_p22n4k2", "q_p33n3"]
+MC_QUICK = ["q_u23n3", "q_p22n4k2", "q_p22n4", "q_p33n3", "q_u22n3", "q_u22n4k2"]
 MC_THOROUGH = ["q_p22n4k2", "q_p33n3", "t_u22n3", "t_u22n4", "t_u22n4k2", "t_u22n4k2d", "t_u23n3",
                "t_u23n4", "t_u33n3", "t_p22n4", "t_p33n4"]
 SWAP = {"left": "right", "right": "left", "both": "both"}
@@ -247,7 +247,8 @@ def random_job(rng, quick):
 def mc_nonvacuous(ctx, c):
     """Model-check one configuration and make sure the permutation loop was actually walked
     (an input table without any supra-threshold edge ends after Observe)."""
-    r = ctx.mc("MC_Nbs.tla", "MC_Nbs_%s.cfg" % c, tag="mc_" + c, workers=4, timeout=3000)
+    r = ctx.mc("MC_Nbs.tla", "MC_Nbs_%s.cfg" % c, tag="mc_" + c, workers=3 if ctx.quick else 4,
+               timeout=3000)
     if r is None:
         return
     m = re.search(r"Finished computing initial states: (\d+) distinct", r["out"])
@@ -259,7 +260,7 @@ def mc_nonvacuous(ctx, c):
 
 def run(ctx):
     cfgs = MC_QUICK if ctx.quick else MC_THOROUGH
-    ctx.parallel([(lambda c=c: mc_nonvacuous(ctx, c)) for c in cfgs], width=4 if ctx.quick else 5)
+    ctx.parallel([(lambda c=c: mc_nonvacuous(ctx, c)) for c in cfgs], width=6 if ctx.quick else 5)
     jobs = behaviour_jobs(ctx, 180 if ctx.quick else 4000)
     nb = len(jobs)
     rng = random.Random(ctx.seed * 104729 + 3)
